@@ -102,7 +102,7 @@ PROFILES = {
     "C14": dict(store=4, smeta=2, delete=1, reopen=5, restart=1),
 }
 
-DATA_KINDS = ["str", "path", "file", "mem", "bytesio", "bufreader"]
+DATA_KINDS = ["str", "path", "file", "mem", "bytesio", "bufreader", "rwfile"]
 
 
 def pick_weighted(rng, weights):
